@@ -69,6 +69,37 @@ size of the UNFOLDED tree, i.e. of the parser's output (a DAG-compressed diction
 theorem c19_dict_parse (g : DDag) (fuel root : Nat) (keyLen : Int) :
     (dictCalls g fuel root keyLen).steps ≤ 2 * treeSize g fuel root := dictCalls_le g fuel root keyLen
 
+/-- dictionary parsing, OUTPUT-BOUNDED reading made literal: a parse that returns made exactly `4·(entries + stops) − 2`
+`parse` + `deserialize_hashmap_node` calls, where `entries` = leaves reached (= keys stored in the result) and `stops` =
+edges ending in a non-ordinary (pruned / library) cell: the call tree is a full binary tree over them.  The work is
+linear in what the parser produces plus the pruned edges it meets — NOT in the size of the input bag: forks that
+reference the same child twice unfold (`sharedDict`: 4 cells, 8 entries), and over a pruned bottom the result is empty
+while `stops = 2^depth` (`sharedPruned`). -/
+theorem c19_dict_output (g : DDag) (fuel root : Nat) (keyLen : Int) (s : Nat)
+    (h : dictCalls g fuel root keyLen = .done s) :
+    s + 2 = 4 * ((dictOut g fuel root keyLen).1 + (dictOut g fuel root keyLen).2) :=
+  dictCalls_out g fuel root keyLen s h
+
+/-- … and ALL steps of the dictionary parser (calls + iterations of the unary-label loop) are at most `1 + B` times the
+calls when no cell has more than `B` bits (`B ≤ 1023`), with the same outcome (returned / raised): for a parse that
+returns, steps `≤ (1 + B)·(4·(entries + stops) − 2)`. -/
+theorem c19_dict_total (g : DDag) (B : Nat) (hB : ∀ nd ∈ g, nd.bits.length ≤ B) (fuel root : Nat) (keyLen : Int) (s : Nat)
+    (h : dictParse g fuel root keyLen = .done s) :
+    s + 2 * (1 + B) ≤ (1 + B) * (4 * ((dictOut g fuel root keyLen).1 + (dictOut g fuel root keyLen).2)) := by
+  have hr := dictParse_rel g B hB fuel root keyLen
+  rw [h] at hr
+  cases hc : dictCalls g fuel root keyLen with
+  | oof => rw [hc] at hr; exact hr.elim
+  | raised c => rw [hc] at hr; exact hr.elim
+  | done c =>
+    rw [hc] at hr
+    simp only [DRel] at hr
+    have ho := dictCalls_out g fuel root keyLen c hc
+    rw [← ho]
+    have e : (1 + B) * (c + 2) = c * (1 + B) + 2 * (1 + B) := by
+      rw [Nat.mul_comm, Nat.add_mul]
+    omega
+
 /-- the `deserialize_unary` loop of a label never runs more iterations than the cell has bits (≤ 1023) -/
 theorem c19_dict_label (bits : Bits) (m : Int) : (readLabel bits m).2 ≤ bits.length := readLabel_iters bits m
 
@@ -174,6 +205,14 @@ example : (bocCost [0xb5, 0xee, 0x9c, 0x72, 0x01, 0x01, 0x01, 0xff, 0x00, 0x03, 
 def sharedDict : DDag := [⟨[false, false], [], true⟩, ⟨[false, false], [0, 0], true⟩, ⟨[false, false], [1, 1], true⟩,
   ⟨[false, false], [2, 2], true⟩]
 example : dictCalls sharedDict 5 3 3 = .done 30 ∧ treeSize sharedDict 5 3 = 15 := by decide
+example : dictOut sharedDict 5 3 3 = (8, 0) ∧ dictParse sharedDict 5 3 3 = .done 30 := by decide
+example : ∀ nd ∈ sharedDict, nd.bits.length ≤ 2 := by decide
+
+/-- the same forks over a non-ordinary bottom cell: the result is EMPTY (0 entries) after the same 30 calls — 8 pruned
+edges.  With 30 forks instead of 3 (a bag of ≈ 250 bytes): 2^30 pruned edges, no output. -/
+def sharedPruned : DDag := [⟨[false, false], [], false⟩, ⟨[false, false], [0, 0], true⟩, ⟨[false, false], [1, 1], true⟩,
+  ⟨[false, false], [2, 2], true⟩]
+example : dictCalls sharedPruned 5 3 9 = .done 30 ∧ dictOut sharedPruned 5 3 9 = (0, 8) := by decide
 
 /-- `NoBareCycle` separates the two tables -/
 example : ¬ Tl.NoBareCycle cyclicTable 7 := by decide
